@@ -681,6 +681,17 @@ pub fn run_real(sc: &Scenario, extras: u8) -> RunReport {
                 }
             }
         }
+        if extras & 1 != 0 {
+            // odd names are met by whatever lists a directory: every directory of the tree is also
+            // removed (deepest first) and copied from at the end of the run
+            let mut dirs: Vec<String> = sc.init.iter().filter(|(_, c)| c.is_none()).map(|(p, _)| p.clone()).collect();
+            dirs.sort_by_key(|d| std::cmp::Reverse(d.matches('/').count()));
+            for d in dirs {
+                sc.calls.push(Call { func: "fs.copy_file".into(), args: vec![d.clone(), "zz_copy".into()], host: true });
+                sc.calls.push(Call { func: "fs.remove_dir".into(), args: vec![d.clone()], host: true });
+                sc.calls.push(Call { func: "fs.rename".into(), args: vec![d.clone(), format!("{d}_moved")], host: true });
+            }
+        }
         // reference: the same calls against the simulated file system
         let mut reference: Vec<String> = Vec::new();
         let mut sim_tree = BTreeMap::new();
